@@ -3,6 +3,7 @@
 Styles (per module): 'proc' (Module() + add / setattr), 'class' (h.module on a class body),
 'gen' (inside an @h.generator).  Connection styles: 'call', 'setattr', 'connect', 'mixed'.
 `late`: instances are connected before they are added to the module."""
+import json
 from . import env
 from .model import PRIMS
 
@@ -180,8 +181,20 @@ class Builder:
         for name, width, d in m["sigs"]:
             objs[name] = self.port_sig(None, width, d)
             order.append((name, objs[name]))
+        mult_pool = {}
         for binfo in m["bundles"]:
-            objs[binfo[0]] = self.bundle_inst(binfo)
+            if len(binfo) > 5 and binfo[5] == "mult":
+                # `a, b = 2 * B(...)`: all instances of this module with the same definition / visibility / flip / role come
+                # from one multiplication
+                key = json.dumps([binfo[1], binfo[2], binfo[3], binfo[4]])
+                if not mult_pool.get(key):
+                    cnt = sum(1 for b2 in m["bundles"] if len(b2) > 5 and b2[5] == "mult" and json.dumps([b2[1], b2[2], b2[3], b2[4]]) == key)
+                    mult_pool[key] = list(cnt * self.bundle_inst(binfo[:5] + ["ctor"]))
+                objs[binfo[0]] = mult_pool[key].pop(0)
+            elif len(binfo) > 5 and isinstance(binfo[5], str) and binfo[5].startswith("flipof:"):
+                objs[binfo[0]] = h.flipped(objs[binfo[5][7:]])  # h.flipped() of a sibling that is itself in use
+            else:
+                objs[binfo[0]] = self.bundle_inst(binfo)
             order.append((binfo[0], objs[binfo[0]]))
         insts = {}
         for inst in m["insts"]:
